@@ -19,6 +19,7 @@ import (
 )
 
 type relEv struct {
+	touch  bool // live field evaluated outside any lock section (read, or handed to a callee)
 	fail   bool
 	label  string
 	fields []string
@@ -104,6 +105,18 @@ func (c *relCtx) lhsField(e ast.Expr, x string) string {
 			return ""
 		}
 	}
+}
+
+// lastResultKind: "error", "bool" or "" for the function's last result type
+func lastResultKind(fn *ast.FuncDecl) string {
+	if fn.Type.Results == nil || len(fn.Type.Results.List) == 0 {
+		return ""
+	}
+	t := fn.Type.Results.List[len(fn.Type.Results.List)-1].Type
+	if id, ok := t.(*ast.Ident); ok && (id.Name == "error" || id.Name == "bool") {
+		return id.Name
+	}
+	return ""
 }
 
 func failingReturn(r *ast.ReturnStmt) bool {
@@ -197,7 +210,7 @@ func (c *relCtx) events(fn *ast.FuncDecl, x string, depth int) []relEv {
 			for _, r := range v.Results {
 				walk(r)
 			}
-			if failingReturn(v) {
+			if lastResultKind(fn) != "" && failingReturn(v) {
 				nfail++
 				out = append(out, relEv{fail: true, label: fmt.Sprintf("%s#%d", fn.Name.Name, nfail), loops: append([]ast.Node(nil), loops...), pos: v.Pos()})
 			}
@@ -227,6 +240,11 @@ func (c *relCtx) events(fn *ast.FuncDecl, x string, depth int) []relEv {
 				if f := c.lhsField(l, x); f != "" {
 					addField(f, v.Pos())
 				}
+			}
+			return
+		case *ast.SelectorExpr:
+			if id, ok := v.X.(*ast.Ident); ok && id.Name == x && c.fields[v.Sel.Name] && v.Sel.Name != "mu" && v.Sel.Name != "now" && !locked {
+				out = append(out, relEv{touch: true, fields: []string{v.Sel.Name}, loops: append([]ast.Node(nil), loops...), pos: v.Pos()})
 			}
 			return
 		case *ast.CallExpr:
@@ -266,7 +284,7 @@ func (c *relCtx) events(fn *ast.FuncDecl, x string, depth int) []relEv {
 				sub := c.events(callee, recvName(callee), depth+1)
 				if locked && cur >= 0 {
 					for _, e := range sub {
-						if !e.fail {
+						if !e.fail && !e.touch {
 							for _, f := range e.fields {
 								addField(f, v.Pos())
 							}
@@ -301,7 +319,7 @@ func (c *relCtx) events(fn *ast.FuncDecl, x string, depth int) []relEv {
 	var post []relEv
 	for i, e := range out {
 		post = append(post, e)
-		if e.fail {
+		if e.fail || e.touch {
 			continue
 		}
 		for j := 0; j < i; j++ {
@@ -413,6 +431,8 @@ func genReload(repo, out string) {
 	var rows []string
 	for _, e := range evs {
 		switch {
+		case e.touch:
+			rows = append(rows, "  .touchUnlocked "+leanList(e.fields))
 		case e.fail:
 			rows = append(rows, "  .mayFail "+leanStr(e.label))
 		case e.locked:
